@@ -13,9 +13,11 @@ def run(tier: str, seed: int):
         cfgs = list(F.fam_limits(1, 4, batch=2, faults=False)) + list(F.fam_limits(1, 3, batch=3, faults=True, tnames=('TA', 'TB', 'TC', 'TD')))
         serial = list(F.fam_limits(1, 3, batch=1))
         rule = 'all DAG shapes n<=4 x per-node type in {unlimited, max_parallel 1, 2} (n<=3: also 3, with single faults/deaths, batch<=3), all nodes requested, every completion order'
+        e3c = list(F.fam_e3(F.fam_limits(1, 3, tnames=('TA', 'TB'), faults=True), workers=(1, 2, None)))
     else:
         cfgs = (list(F.fam_limits(1, 4, batch=3, faults=True, tnames=('TA', 'TB', 'TC', 'TD')))
                 + list(F.fam_limits(5, 5, batch=2, tnames=('TB', 'TC'))))
         serial = list(F.fam_limits(1, 4, batch=1))
         rule = 'n<=4 x types {None,1,2,3} x faults, batch<=3; n=5 x {1,2}'
-    return run_e2_property('C04', tier, seed, cfgs, serial_configs=serial, rule=rule, assumptions=ASSUME)
+        e3c = list(F.fam_e3(F.fam_limits(1, 3, tnames=('TA', 'TB', 'TC'), faults=True), workers=(1, 2, 3, None), cpu_count=3)) + list(F.fam_e3(F.fam_limits(4, 4, tnames=('TA', 'TB')), workers=(2, 3), cpu_count=3, liveness=False))
+    return run_e2_property('C04', tier, seed, cfgs, serial_configs=serial, e3_configs=e3c, rule=rule, assumptions=ASSUME)
